@@ -97,6 +97,9 @@ def run(pid, tier, seed):
                 if e["e"] == "FixedBig":
                     verdict.violation("Fixed:beyond-24h:64-bit-range%s" % (":ub" if e["ub"] else ""),
                                       "fixed_time_zone(%s limbs) rejected by FixedTrace: %s" % (e["ow"], lines[n - 1][:300]), e)
+                elif e["e"] == "FixedLong":
+                    verdict.violation("FixedName:over-long:%s" % ("ub" if e["ub"] else "accepted"),
+                                      "a text of %s (limbs) characters beginning %r: FixedOffsetFromName ok=%d; rejected by FixedTrace" % (e["len"], bytes(e["head"]), e["fok"]), e)
                 elif e["e"] == "Fixed":
                     o = e["o"]
                     cls = "zero" if o == 0 else "beyond-24h" if abs(o) > 86400 else "exactly-24h" if abs(o) == 86400 else \
